@@ -191,16 +191,19 @@ func (info *Info) Encode() (hheaData []byte, hmtxData []byte) {
 			panic("len(info.GlyphExtents) != len(info.Widths)")
 		}
 		first = true
+		var minRsb int
 		for i, ext := range info.GlyphExtents {
 			if ext.IsZero() {
 				continue
 			}
-			rsb := info.Widths[i] - ext.URx
-			if first || rsb < hhea.MinRightSideBearing {
-				hhea.MinRightSideBearing = rsb
+			// The difference of two int16 values may not fit into an int16.
+			rsb := int(info.Widths[i]) - int(ext.URx)
+			if first || rsb < minRsb {
+				minRsb = rsb
 			}
 			first = false
 		}
+		hhea.MinRightSideBearing = funit.Int16(min(max(minRsb, math.MinInt16), math.MaxInt16))
 	}
 
 	if info.GlyphExtents != nil {
